@@ -675,7 +675,7 @@ def timestamps_stay_sorted(ctx):
                      ctx.prog.loc(n))
 
 
-@rule("C06.R7", ["C06", "C13", "C01"], min_instances=1, design="3.6")
+@rule("C06.R7", ["C06", "C13", "C01", "C11"], min_instances=1, design="3.6")
 def valid_flag_set_last(ctx):
     """In a rebuild, the validity flag is set true only after every statement that may raise."""
     fl = fields_of(ctx)
@@ -716,7 +716,7 @@ def valid_flag_set_last(ctx):
 
         setters = [x for x in g.stmt_nodes() if sets_valid(x)]
         if not setters:
-            yield Ob("C06.R7", ["C06", "C13", "C01"], f"{m.qual} | rebuild sets flag", False,
+            yield Ob("C06.R7", ["C06", "C13", "C01", "C11"], f"{m.qual} | rebuild sets flag", False,
                      "rebuild never marks the index valid", m.loc())
             continue
         bad = []
@@ -734,7 +734,7 @@ def valid_flag_set_last(ctx):
                    f" leaving a valid partially built index")
         else:
             msg = "flag is set true only after every may-raise statement of the rebuild"
-        yield Ob("C06.R7", ["C06", "C13", "C01"], f"{m.qual} | validity flag set last", ok, msg, m.loc())
+        yield Ob("C06.R7", ["C06", "C13", "C01", "C11"], f"{m.qual} | validity flag set last", ok, msg, m.loc())
 
 
 @rule("C06.R8", ["C06", "C01", "C07"], min_instances=3, design="3.6")
@@ -799,8 +799,13 @@ def position_bookkeeping(ctx):
                         if bvals and all(norm(b) in (f"len(self.{S})", f"len(self.{P})", f"self.{next(iter(fl.count))}")
                                          and not in_loop(b, lp) for b in bvals):
                             ok_def = True
-            if pos == ivar and start_arg is not None and norm(start_arg) in (f"len(self.{S})", f"len(self.{P})"):
-                ok_def = True
+            if pos == ivar and start_arg is not None:
+                sv = [start_arg]
+                if isinstance(start_arg, ast.Name):
+                    sv = assignments_to(f, start_arg.id)
+                if sv and all(norm(b) in (f"len(self.{S})", f"len(self.{P})", f"self.{next(iter(fl.count))}")
+                              and not in_loop(b, lp) for b in sv):
+                    ok_def = True
             if not ok_def:
                 bad.append(f"position `{pos}` is not <number of indexed items before the loop> + <enumerate index>")
         else:
